@@ -324,7 +324,9 @@ func c11Forms(c *Ctx, p *Prog, fn *ssa.Function) {
 			exact := strings.Contains(pS.String(), "UDist") || (pS.isConst() && strings.Contains(o.AssignStr(), "U1")) || strings.Contains(o.AssignStr(), "len(")
 			approx := strings.Contains(pS.String(), "NormalDist") || strings.Contains(pS.String(), "StdNormal")
 			centre := false
-			for k, v := range o.Assign {
+			for _, k := range o.AtomKeys() {
+				v := o.Assign[k]
+				_ = v
 				s := o.AtomSyms[k]
 				if s.Op == "binop" && s.Tok == token.EQL && isFloat2(s.Args[0].Type) && !s.Args[1].isConst() && v {
 					centre = true
@@ -337,7 +339,9 @@ func c11Forms(c *Ctx, p *Prog, fn *ssa.Function) {
 			_ = exact
 			// were ties seen on this path? (the flag the ranking loop sets; "?" when the path does not test it)
 			ties := "?"
-			for k, v := range o.Assign {
+			for _, k := range o.AtomKeys() {
+				v := o.Assign[k]
+				_ = v
 				if s := o.AtomSyms[k]; strings.Contains(s.String(), "hasTies") && s.Op != "binop" {
 					ties = fmt.Sprint(v)
 				}
@@ -708,7 +712,9 @@ func c11Ties(c *Ctx, p *Prog, fn *ssa.Function) {
 			for _, o := range outs {
 				var ties *bool
 				within := map[string]*bool{}
-				for k, v := range o.Assign {
+				for _, k := range o.AtomKeys() {
+					v := o.Assign[k]
+					_ = v
 					s := o.AtomSyms[k]
 					vv := v
 					str := s.String()
